@@ -357,6 +357,12 @@ class PreloadsSim(purity.PuritySim):
                         break
             if bad:
                 vk = "preload_changes_output" if cond["slots"] else "formalism_changes_output"
+                if kind_tol == "cond" and self.reference_solution_not_stationary(refid):
+                    # the library's positive-only solver handed back a point that is not a stationary point of its own problem
+                    # (known finding F15-3): its answer then jumps by per cents for a last-bit change of the data vector, which is
+                    # all the two formalisms differ by.  Identified by that predicate, so anything else is still reported.
+                    cond = dict(cond, reference_solution_not_stationary=True)
+                    self.probe("solver_answer_not_stationary")
                 self.report(vk, tn, label, cond, compare.describe(expected)[:240], compare.describe(tree)[:240] + " -- " + bad)
         # ---- P2: bit-identical among clients of the same formalism sharing P (only while P's slots are fixed)
         if not self.harvested and not self.knobs.get("p_evict") and target in self.client_invs:
@@ -378,6 +384,32 @@ class PreloadsSim(purity.PuritySim):
             self.probe("solver_failure_then_recovery")
         self.after_event(f"read:{tn}.{label}")
         return True
+
+    def reference_solution_not_stationary(self, refid):
+        """
+        True when the REFERENCE inversion's own reconstruction x (no preloads, mapping formalism) is not a stationary point of the
+        problem it was asked to solve: on the entries with x > 0 the gradient (F+H) x - D of the quadratic must vanish for the
+        unconstrained, the positive-only and the forced-zero solutions alike.  Evaluated only after a mismatch.
+        """
+        inv_id = refid
+        for fid, rf in self.ref_of.items():
+            if rf == refid and fid in self.fit_inv:  # a fit: the question is about its inversion
+                inv_id = self.ref_of.get(self.fit_inv[fid], refid)
+                break
+        try:
+            trees = [self.ref.read(inv_id, {"t": "prop", "name": n})[0] for n in ("reconstruction", "curvature_reg_matrix", "data_vector")]
+            if any(t[0] in ("exc", "build_failed") for t in trees):
+                return False
+            x, A, D = (np.asarray(compare.to_array(t), dtype=float) for t in trees)
+            if x.ndim != 1 or A.shape != (x.size, x.size) or D.shape != x.shape or not (np.isfinite(x).all() and np.isfinite(A).all() and np.isfinite(D).all()):
+                return False
+            pos = x > 0
+            if not pos.any():
+                return False
+            g = A @ x - D
+            return bool(np.max(np.abs(g[pos])) > 1e-6 * max(1.0, float(np.max(np.abs(D)))))
+        except Exception:  # noqa: BLE001
+            return False
 
     def do_aux(self, op):
         target = op["target"]
